@@ -20,7 +20,7 @@ CONSTANTS
   Exclusive = TRUE
   MinClasses = 0
   MinNodes = 0
-  CodeDevs <- AllDevs
+  CodeDevs <- CurrentDevs
 INVARIANT TypeOK
 INVARIANT RoundTripExact
 INVARIANT RoundTripPrinted
